@@ -8,6 +8,12 @@
 // SOAK: one thread issues > 2^32 operations on the LRU container (lib/lru-cache.h, every operation in lock-step with a
 // reference LRU; both tiers) and, through the public API, 2^26 (quick) / > 2^32 (thorough) plan requests per cache, with
 // lock-step key comparison (hook + Lean model) at checkpoints and in dense windows around every power of two up to 2^32.
+// PADDED / DERIVED CALLS: the alphabet also holds the n-point overloads fft(x, n) / rfft(x, n) with inputs SHORTER, EQUAL and LONGER than n
+// (several input lengths for one n within a history, ascending and descending), and what is built on them or pads internally: welch
+// (real / complex) and mscohere with winlen < nfft at one nfft, sinad (periodogram), hilbert(x, n), xcorr, FftFilter, finddelay, resample.
+// Every result is compared bit-exactly with the same single call in a fresh thread; the witness names every call and its input.
+// CONCURRENT HISTORIES: batches of histories run at the same time in different threads (own caches, own inverse-real lengths); each
+// thread must see exactly what it sees alone (results, outcomes, key lists).
 #pragma GCC optimize("O2")   // the soak loops run > 2^32 iterations
 #include "common.hpp"
 #include "lru-cache.h"
@@ -15,6 +21,8 @@
 #include <map>
 #include <algorithm>
 #include <chrono>
+#include <mutex>
+#include <atomic>
 using namespace dsplib;
 
 namespace dsplib {
@@ -33,15 +41,57 @@ static vh::Out out;
 //                       p FftPlan(n)(n+1 samples), q FftPlanR(n)(n+1 samples), j IfftPlan(n)(n+1 samples), Z CztPlan(n,m)(n+1 samples),
 //                       S istft with odd nfft = n, U istft with frames one bin too long (nfft = n), T stft with overlap = nwin = n,
 //                       E fft / ifft / rfft / irfft of an EMPTY array
+// kind (n-point overloads and calls built on them; xc / xr are the input generators in_c / in_r below):
+//                       a<n>:<m> fft(xc(m), n)    b<n>:<m> fft(xr(m), n)    B<n>:<m> rfft(xr(m), n)        (m < n pads, m > n truncates)
+//                       W<n>:<m> welch(xr(3m+m/2+1), hann(m), m/2, nfft = n)    V<n>:<m> the same with complex input    M<n>:<m> mscohere(x, y, hamming(m), m/2, nfft = n)
+//                       P<n> sinad(xr(n)) (periodogram, nfft = 2^nextpow2(n))   H<n>:<m> hilbert(xr(m), n)
+//                       x<n>:<m> xcorr(xc(n), xc(m))   X<n>:<m> xcorr(xr(n), xr(m))   L<n>:<m> FftFilter(xc(m)).process(xc(n))   d<n>:<m> finddelay(xr(n), xr(m))
+//                       y<n>:<m> resample(xr(n), m / 100, m % 100)   (pads internally, no transform)
+//                       I<n>:<m> m times irfft(X, n) of the same spectrum X = fft(xr(n)); all m results must be identical (result = that of i<n>)
+//                       Q<n>:<m> welch with nfft = n NOT a power of two: rejected before any plan is requested
 struct Op { char kind; int n; int m; };
 
-static bool is_rejected_kind(char k) { return std::strchr("oOwpqjZSUTE", k) != nullptr; }
+static bool is_rejected_kind(char k) { return std::strchr("oOwpqjZSUTEQ", k) != nullptr; }
+static bool two_param_kind(char k) { return std::strchr("zZabBWVMHxXLdyIQ", k) != nullptr; }
 
 static std::string op_str(const Op& o) {
     std::string s(1, o.kind);
     s += std::to_string(o.n);
-    if (o.kind == 'z' || o.kind == 'Z') s += ":" + std::to_string(o.m);
+    if (two_param_kind(o.kind)) s += ":" + std::to_string(o.m);
     return s;
+}
+
+// the call an operation makes, in words (part of every witness: together with the generators it is the complete input)
+static const char* GENERATORS = "xc(L)[i] = sin(0.37 i + 0.1 L) + j cos(0.11 i i + L); xr(L)[i] = sin(0.37 i + 0.1 L) + 0.25 cos(1.3 i); i = 0 .. L-1";
+static std::string describe(const Op& o) {
+    const std::string n = std::to_string(o.n), m = std::to_string(o.m);
+    switch (o.kind) {
+    case 'c': return "fft(xc(" + n + "))";
+    case 'f': return "ifft(xc(" + n + "))";
+    case 'r': return "fft(xr(" + n + "))";
+    case 'i': return "irfft(fft(xr(" + n + ")), " + n + ")";
+    case 'h': return "irfft(first " + std::to_string(o.n / 2 + 1) + " bins of fft(xr(" + n + ")), " + n + ")";
+    case 'z': return "czt(xc(" + n + "), " + m + ", expj(-2pi/(" + m + "+1.5)), 1)";
+    case 's': return "istft(stft(xr(" + std::to_string(3 * o.n + o.n / 2 + 1) + "), nfft=" + n + "), nfft=" + n + ")";
+    case 'k': return "IfftPlanR(" + n + "): rejected call, then inverts fft(xr(" + n + "))";
+    case 'K': return "FftPlan(" + n + "): rejected call, then transforms xc(" + n + ")";
+    case 'a': return "fft(xc(" + m + "), " + n + ")";
+    case 'b': return "fft(xr(" + m + "), " + n + ")";
+    case 'B': return "rfft(xr(" + m + "), " + n + ")";
+    case 'W': return "welch(xr(" + std::to_string(3 * o.m + o.m / 2 + 1) + "), hann(" + m + "), noverlap=" + std::to_string(o.m / 2) + ", nfft=" + n + ")";
+    case 'V': return "welch(xc(" + std::to_string(3 * o.m + o.m / 2 + 1) + "), hann(" + m + "), noverlap=" + std::to_string(o.m / 2) + ", nfft=" + n + ")";
+    case 'M': return "mscohere(xr(L), flip(xr(L)) + 0.5 xr(L), hamming(" + m + "), noverlap=" + std::to_string(o.m / 2) + ", nfft=" + n + "), L=" + std::to_string(3 * o.m + o.m / 2 + 1);
+    case 'P': return "sinad(xr(" + n + "))";
+    case 'H': return "hilbert(xr(" + m + "), " + n + ")";
+    case 'x': return "xcorr(xc(" + n + "), xc(" + m + "))";
+    case 'X': return "xcorr(xr(" + n + "), xr(" + m + "))";
+    case 'L': return "FftFilter(xc(" + m + ")).process(xc(" + n + "))";
+    case 'd': return "finddelay(xr(" + n + "), xr(" + m + "))";
+    case 'y': return "resample(xr(" + n + "), " + std::to_string(o.m / 100) + ", " + std::to_string(o.m % 100) + ")";
+    case 'I': return m + " x irfft(fft(xr(" + n + ")), " + n + ")";
+    case 'Q': return "welch(xr(" + std::to_string(4 * o.m) + "), hann(" + m + "), noverlap=" + std::to_string(o.m / 2) + ", nfft=" + n + " (not a power of two))";
+    default: return "rejected call " + op_str(o);
+    }
 }
 
 static arr_cmplx in_c(int n) {
@@ -58,6 +108,7 @@ static arr_real in_r(int n) {
 struct Result {
     bool threw = false;        // the call as a whole ended with an exception
     bool inner_accepted = false;   // k / K / E: a call that had to be rejected returned normally
+    bool unstable = false;         // I: identical calls in a row gave different bits
     std::vector<double> v;     // the values returned (flattened)
 };
 
@@ -104,7 +155,51 @@ static Result run_op(const Op& o) {
             push(P(in_c(o.n)));
             break;
         }
+        // ---- n-point overloads (pad / truncate) and what is built on them
+        case 'a': push(fft(in_c(o.m), o.n)); break;
+        case 'b': push(fft(in_r(o.m), o.n)); break;
+        case 'B': push(rfft(in_r(o.m), o.n)); break;
+        case 'W': {
+            const auto w = welch(in_r(3 * o.m + o.m / 2 + 1), window::hann(o.m), o.m / 2, o.n);
+            pushr(w.pxx);
+            pushr(w.f);
+            break;
+        }
+        case 'V': {
+            const auto w = welch(in_c(3 * o.m + o.m / 2 + 1), window::hann(o.m), o.m / 2, o.n);
+            pushr(w.pxx);
+            pushr(w.f);
+            break;
+        }
+        case 'M': {
+            const arr_real x = in_r(3 * o.m + o.m / 2 + 1);
+            const arr_real y = flip(x) + x * 0.5;
+            pushr(mscohere(x, y, window::hamming(o.m), o.m / 2, o.n));
+            break;
+        }
+        case 'P': r.push_back(sinad(in_r(o.n))); break;
+        case 'H': push(hilbert(in_r(o.m), o.n)); break;
+        case 'x': push(xcorr(in_c(o.n), in_c(o.m))); break;
+        case 'X': pushr(xcorr(in_r(o.n), in_r(o.m))); break;
+        case 'L': {
+            FftFilter flt(in_c(o.m));
+            push(flt.process(in_c(o.n)));
+            break;
+        }
+        case 'd': r.push_back(double(finddelay(in_r(o.n), in_r(o.m)))); break;
+        case 'y': pushr(resample(in_r(o.n), o.m / 100, o.m % 100)); break;
+        case 'I': {
+            const arr_cmplx X = fft(in_r(o.n));
+            const arr_real first = irfft(X, o.n);
+            for (int j = 1; j < o.m; ++j) {
+                const arr_real again = irfft(X, o.n);
+                if (again.size() != first.size() || std::memcmp(again.data(), first.data(), sizeof(real_t) * first.size()) != 0) R.unstable = true;
+            }
+            pushr(first);
+            break;
+        }
         // ---- calls that must be rejected
+        case 'Q': { const auto w = welch(in_r(4 * o.m), window::hann(o.m), o.m / 2, o.n); pushr(w.pxx); break; }
         case 'o': pushr(irfft(in_c(o.n), o.n)); break;
         case 'O': { const IfftPlanR P(o.n); r.push_back(P.size()); break; }
         case 'w': pushr(irfft(in_c(o.n / 2), o.n)); break;
@@ -144,6 +239,8 @@ static Result run_op(const Op& o) {
 static Op ref_op(const Op& o) {
     if (o.kind == 'k') return {'i', o.n, 0};
     if (o.kind == 'K') return {'c', o.n, 0};
+    if (o.kind == 'I') return {'i', o.n, 0};
+    if (o.kind == 'B') return {'b', o.n, o.m};   // rfft(x, n) "equal fft(x, n)"
     return o;
 }
 
@@ -173,13 +270,41 @@ static std::string hist_json(const std::vector<Op>& h, int upto, const char* wha
     return s + "]}";
 }
 
-// executes one history in a fresh thread
-static void run_history(const std::vector<Op>& h, bool with_long_lived, bool emit_corr) {
-    for (auto& o : h) reference(o);   // make sure references exist (computed in their own threads)
-    const Op ll_ops[3] = {{'c', 60, 0}, {'c', 47, 0}, {'r', 90, 0}};
-    for (auto& o : ll_ops) reference(o);
-    std::string lhs, rhs;
-    std::thread t([&] {
+// witness of an oracle failure: the history (letters), every call of it in words (the last 24 for long histories), the generators of
+// the inputs and — for the n-point overloads — the input of the failing call itself
+static std::string witness_json(const std::vector<Op>& h, int upto, const std::string& what) {
+    std::string s = hist_json(h, upto, what.c_str());
+    s.pop_back();
+    const int last = std::min(upto, int(h.size()) - 1);
+    s += ",\"calls_in_words\":[";
+    const int from = std::max(0, last - 23);
+    for (int i = from; i <= last; ++i) { if (i > from) s += ","; s += "\"" + describe(h[i]) + "\""; }
+    s += "],\"first_call_in_words_is_number\":" + std::to_string(from) + ",\"inputs\":\"" + GENERATORS + "\"";
+    if (last >= 0 && upto < int(h.size())) {
+        const Op& o = h[last];
+        s += ",\"failing_call\":\"" + describe(o) + "\"";
+        if (std::strchr("abBH", o.kind) && o.m <= 96) {
+            if (o.kind == 'a') s += ",\"failing_call_input\":" + vh::jarr(in_c(o.m));
+            else s += ",\"failing_call_input\":" + vh::jarr(in_r(o.m));
+        }
+    }
+    return s + "}";
+}
+
+// bookkeeping shared by history threads (sequential histories: one thread at a time; concurrent batches: several)
+static std::mutex g_out_mx;
+static void h_fail(const std::string& k, const std::string& js) { std::lock_guard<std::mutex> g(g_out_mx); out.fail(k, js); }
+static void h_stat(const std::string& k, long long d = 1) { std::lock_guard<std::mutex> g(g_out_mx); out.stat(k, d); }
+static void h_oracle(long long d = 1) { std::lock_guard<std::mutex> g(g_out_mx); out.n_oracle += d; }
+
+static const Op LL_OPS[3] = {{'c', 60, 0}, {'c', 47, 0}, {'r', 90, 0}};
+
+// one history, executed by the CALLING thread (which must be fresh: no transform call before).  References must exist already.
+// `concurrent`: other histories run at the same time in other threads (the process-wide "case in flight" is then set by the caller)
+static void exec_history(const std::vector<Op>& h, bool with_long_lived, bool concurrent, std::string& lhs, std::string& rhs) {
+    const Op* ll_ops = LL_OPS;
+    const std::string ctx = concurrent ? " [while other threads run their own histories]" : "";
+    {
         const int cap = verif_fft_cache_capacity();
         lhs = "hist " + std::to_string(cap) + " " + std::to_string(with_long_lived ? 1 : 0) + " " + std::to_string(h.size());
         std::unique_ptr<FftPlan> p60, p47;
@@ -189,37 +314,47 @@ static void run_history(const std::vector<Op>& h, bool with_long_lived, bool emi
             p47 = std::make_unique<FftPlan>(47);
             r90 = std::make_unique<FftPlanR>(90);
         }
-        int last_c = -1, last_r = -1;
         for (size_t i = 0; i < h.size(); ++i) {
             const Op& o = h[i];
             lhs += " " + op_str(o);
-            vh::set_current("C10:crash", hist_json(h, int(i), "crash"));
+            if (!concurrent) vh::set_current("C10:crash", hist_json(h, int(i), "crash"));
             const auto got = run_op(o);
-            vh::clear_current();
-            out.n_oracle++;
-            if (!same_bits(got, reference(o)))
-                out.fail("C10:history-dependence", hist_json(h, int(i), got.threw != reference(o).threw ? "outcome (exception or not) differs from the fresh-thread outcome"
-                                                                                                          : "result differs from the fresh-thread result"));
+            if (!concurrent) vh::clear_current();
+            h_oracle();
+            const Result& want = reference(o);
+            if (!same_bits(got, want))
+                h_fail("C10:history-dependence", witness_json(h, int(i), (got.threw != want.threw ? "outcome (exception or not) differs from the fresh-thread outcome"
+                                                                                                   : "result differs from the fresh-thread result") + ctx));
+            if (got.unstable) h_fail("C10:history-dependence", witness_json(h, int(i), "identical irfft calls in a row returned different bits" + ctx));
             if ((is_rejected_kind(o.kind) && !got.threw) || got.inner_accepted)
-                out.fail("C10:rejected-call-accepted", hist_json(h, int(i), "a call that must be rejected returned normally"));
-            if (!is_rejected_kind(o.kind) && got.threw) out.fail("C10:valid-call-threw", hist_json(h, int(i), "a valid call ended with an exception"));
-            out.stat(is_rejected_kind(o.kind) ? "ops_rejected_calls" : "ops_valid_calls");
-            if (!is_rejected_kind(o.kind) && i > 0 && is_rejected_kind(h[i - 1].kind)) out.stat("valid_calls_directly_after_a_rejected_call");
+                h_fail("C10:rejected-call-accepted", witness_json(h, int(i), "a call that must be rejected returned normally" + ctx));
+            if (!is_rejected_kind(o.kind) && got.threw) h_fail("C10:valid-call-threw", witness_json(h, int(i), "a valid call ended with an exception" + ctx));
+            h_stat(is_rejected_kind(o.kind) ? "ops_rejected_calls" : "ops_valid_calls");
+            if (!is_rejected_kind(o.kind) && i > 0 && is_rejected_kind(h[i - 1].kind)) h_stat("valid_calls_directly_after_a_rejected_call");
+            if (std::strchr("abBWVMHP", o.kind)) {   // input-length relation of the n-point calls, and repeats of one n with another input length
+                if (std::strchr("abBH", o.kind)) h_stat(o.m < o.n ? "npoint_calls_input_shorter" : o.m == o.n ? "npoint_calls_input_equal" : "npoint_calls_input_longer");
+                for (int j = int(i) - 1; j >= 0; --j) {
+                    const Op& q = h[j];
+                    if (!std::strchr("abBWVMHP", q.kind)) continue;
+                    if (q.n == o.n && q.m > o.m && o.m < o.n) h_stat("padded_calls_after_a_longer_input_at_the_same_n");
+                    if (q.n == o.n && q.m < o.m) h_stat("padded_calls_after_a_shorter_input_at_the_same_n");
+                    break;
+                }
+            }
             const auto kc = verif_fft_cache_keys();
             const auto kr = verif_rfft_cache_keys();
             rhs += " C " + std::to_string(kc.size()) + vh::join_ints(kc) + " R " + std::to_string(kr.size()) + vh::join_ints(kr);
-            if (int(kc.size()) > cap || int(kr.size()) > cap) out.fail("C10:cache-exceeds-capacity", hist_json(h, int(i), "more plans cached than DSPLIB_FFT_CACHE_SIZE"));
+            if (int(kc.size()) > cap || int(kr.size()) > cap) h_fail("C10:cache-exceeds-capacity", witness_json(h, int(i), "more plans cached than DSPLIB_FFT_CACHE_SIZE"));
             // the plan used last (if it is cacheable) must be the most recent entry of its cache
             auto small = [](int n) { return n == 1 || n == 2 || n == 4 || n == 8; };
-            if (std::strchr("cfKpj", o.kind) && !small(o.n)) { if (kc.empty() || kc[0] != o.n) out.fail("C10:mru-not-cached", hist_json(h, int(i), "most recently used complex length is not the front entry")); }
-            if ((o.kind == 'r' || o.kind == 'q') && !small(o.n)) { if (kr.empty() || kr[0] != o.n) out.fail("C10:mru-not-cached", hist_json(h, int(i), "most recently used real length is not the front entry")); }
-            (void)last_c; (void)last_r;
-            out.stat(kc.size() >= size_t(cap) ? "complex_cache_full" : "complex_cache_not_full");
+            if (std::strchr("cfKpjaV", o.kind) && !small(o.n)) { if (kc.empty() || kc[0] != o.n) h_fail("C10:mru-not-cached", witness_json(h, int(i), "most recently used complex length is not the front entry")); }
+            if (std::strchr("rqbBWM", o.kind) && !small(o.n)) { if (kr.empty() || kr[0] != o.n) h_fail("C10:mru-not-cached", witness_json(h, int(i), "most recently used real length is not the front entry")); }
+            h_stat(kc.size() >= size_t(cap) ? "complex_cache_full" : "complex_cache_not_full");
         }
         if (with_long_lived) {   // plans obtained earlier stay valid after arbitrarily many other lengths
             std::vector<double> a, b, c;
             auto flat = [](const arr_cmplx& y) { std::vector<double> r; for (int i = 0; i < y.size(); ++i) { r.push_back(y[i].re); r.push_back(y[i].im); } return r; };
-            vh::set_current("C10:crash", hist_json(h, int(h.size()), "crash using a long-lived plan"));
+            if (!concurrent) vh::set_current("C10:crash", hist_json(h, int(h.size()), "crash using a long-lived plan"));
             a = flat((*p60)(in_c(60)));
             b = flat((*p47)(in_c(47)));
             c = flat((*r90)(in_r(90)));
@@ -231,19 +366,66 @@ static void run_history(const std::vector<Op>& h, bool with_long_lived, bool emi
                 p60.reset();
                 r90.reset();
                 if (!same_bits(flat(c60(in_c(60))), a) || !same_bits(flat(c90(in_r(90))), c) || c60.size() != 60 || c90.size() != 90)
-                    out.fail("C10:long-lived-plan", hist_json(h, int(h.size()), "a COPY of a plan object gives a different result once the original is destroyed"));
+                    h_fail("C10:long-lived-plan", witness_json(h, int(h.size()), "a COPY of a plan object gives a different result once the original is destroyed"));
             }
-            vh::clear_current();
-            out.n_oracle += 4;
+            if (!concurrent) vh::clear_current();
+            h_oracle(4);
             if (!same_bits(a, reference(ll_ops[0]).v) || !same_bits(b, reference(ll_ops[1]).v) || !same_bits(c, reference(ll_ops[2]).v))
-                out.fail("C10:long-lived-plan", hist_json(h, int(h.size()), "a plan object obtained before the history no longer gives the fresh-thread result"));
+                h_fail("C10:long-lived-plan", witness_json(h, int(h.size()), "a plan object obtained before the history no longer gives the fresh-thread result" + ctx));
         }
-    });
-    t.join();
-    if (emit_corr) out.corr(lhs, rhs.empty() ? "-" : rhs.substr(1));
+    }
+}
+
+static void note_history(const std::vector<Op>& h) {
     out.stat("histories");
     out.stat("history_len_" + std::to_string(h.size() > 8 ? 9 : h.size()) + (h.size() > 8 ? "plus" : ""));
     if (out.n_cases % 997 == 1) out.sample(hist_json(h, int(h.size()), "sample"));
+}
+
+// executes one history in a fresh thread
+static void run_history(const std::vector<Op>& h, bool with_long_lived, bool emit_corr) {
+    for (auto& o : h) reference(o);   // make sure references exist (computed in their own threads)
+    for (auto& o : LL_OPS) reference(o);
+    std::string lhs, rhs;
+    std::thread t([&] { exec_history(h, with_long_lived, false, lhs, rhs); });
+    t.join();
+    if (emit_corr) out.corr(lhs, rhs.empty() ? "-" : rhs.substr(1));
+    note_history(h);
+}
+
+// several histories at the same time, one fresh thread each, released together.  Every thread has its own plan caches, so each must
+// behave exactly as if it ran alone: same bits as the fresh-thread references (computed beforehand, one thread at a time), same key lists.
+static void run_concurrent(const std::vector<std::vector<Op>>& hs, bool with_long_lived) {
+    for (auto& h : hs) for (auto& o : h) reference(o);
+    for (auto& o : LL_OPS) reference(o);
+    std::string js = "{\"op\":\"concurrent histories\",\"what\":\"crash or hang while these histories ran at the same time, one thread each\",\"threads\":" + std::to_string(hs.size()) + ",\"histories_first_40_ops\":[";
+    for (size_t t = 0; t < hs.size(); ++t) {
+        js += t ? ",[" : "[";
+        for (size_t i = 0; i < hs[t].size() && i < 40; ++i) { if (i) js += ","; js += "\"" + op_str(hs[t][i]) + "\""; }
+        js += "]";
+    }
+    js += "],\"inputs\":\"" + std::string(GENERATORS) + "\"}";
+    vh::set_current("C10:crash-concurrent-histories", js);
+    std::vector<std::string> lhs(hs.size()), rhs(hs.size());
+    std::atomic<int> ready{0};
+    std::atomic<bool> go{false};
+    std::vector<std::thread> ts;
+    for (size_t t = 0; t < hs.size(); ++t)
+        ts.emplace_back([&, t] {
+            ++ready;
+            while (!go.load()) std::this_thread::yield();
+            exec_history(hs[t], with_long_lived, true, lhs[t], rhs[t]);
+        });
+    while (ready.load() < int(hs.size())) std::this_thread::yield();
+    go = true;
+    for (auto& t : ts) t.join();
+    vh::clear_current();
+    for (size_t t = 0; t < hs.size(); ++t) {
+        out.corr(lhs[t], rhs[t].empty() ? "-" : rhs[t].substr(1));
+        note_history(hs[t]);
+        out.stat("histories_run_concurrently");
+    }
+    out.stat("concurrent_batches");
 }
 
 static void enumerate(const std::vector<Op>& alphabet, int maxlen, bool ll) {
@@ -582,8 +764,25 @@ int main(int argc, char** argv) {
     // forward / complex calls with rejected calls in between: plan objects applied to the wrong length, empty inputs, CZT plan on the wrong length,
     // istft with frames of the wrong length, and the stft round trip
     const std::vector<Op> AF = {{'c', 16, 0}, {'p', 16, 0}, {'K', 60, 0}, {'j', 45, 0}, {'r', 60, 0}, {'q', 60, 0}, {'E', 0, 0}, {'Z', 10, 7}, {'z', 10, 7}, {'U', 16, 0}, {'s', 16, 0}};
+    // ---- n-point overloads: several input lengths (shorter / equal / longer) for ONE n, complex and real, pow2 / composite / CZT-prime n
+    const std::vector<Op> AP = {{'a', 64, 48}, {'a', 64, 20}, {'a', 64, 64}, {'a', 64, 80}, {'b', 64, 48}, {'b', 64, 20}, {'B', 64, 33}, {'b', 64, 64},
+                                {'a', 60, 45}, {'a', 60, 7}, {'b', 60, 31}, {'b', 60, 77}};
+    const std::vector<Op> AP2 = {{'a', 97, 31}, {'a', 97, 10}, {'b', 97, 96}, {'b', 97, 31}, {'b', 97, 10}, {'a', 16, 15}, {'a', 16, 1}, {'b', 16, 9}, {'b', 16, 2}, {'c', 16, 0}, {'r', 97, 0}};
+    // ---- what is built on them: welch (real / complex) and mscohere with several window lengths at one nfft, the periodogram of sinad (48 and 40 -> nfft 64),
+    //      hilbert(x, n); and a rejected welch call (nfft not a power of two)
+    const std::vector<Op> AS = {{'W', 64, 48}, {'W', 64, 16}, {'W', 64, 64}, {'V', 64, 48}, {'V', 64, 16}, {'M', 64, 32}, {'M', 64, 12}, {'P', 48, 0}, {'P', 40, 0},
+                                {'H', 64, 48}, {'H', 64, 20}, {'Q', 60, 16}, {'b', 64, 30}};
+    // ---- calls that pad internally (xcorr 20+13 and 16+10 -> 32; FftFilter 8 and 5 taps -> 16, 17 taps -> 64; finddelay -> 32; resample: no transform)
+    const std::vector<Op> AX = {{'x', 20, 13}, {'x', 16, 10}, {'X', 20, 13}, {'X', 9, 5}, {'L', 40, 8}, {'L', 40, 5}, {'L', 100, 17}, {'d', 30, 20}, {'d', 17, 31},
+                                {'y', 50, 302}, {'y', 37, 203}, {'a', 32, 10}, {'a', 16, 12}};
     const bool soak_only = soak_env && std::string(soak_env) == "only";   // development aid: nothing but the soak
     const int L = a.thorough ? 7 : 5;
+    auto tph = std::chrono::steady_clock::now();
+    auto phase = [&](const char* name) {   // wall time of the phases (statistics)
+        const auto now = std::chrono::steady_clock::now();
+        out.stat(std::string("phase_ms_") + name, (long long)(std::chrono::duration<double>(now - tph).count() * 1e3));
+        tph = now;
+    };
     if (!soak_only) {
     // every even n <= 64 (thorough 256) after each kind of rejected request for n+1 and n-1, as the first requests of a thread
     for (int n = 2; n <= (a.thorough ? 256 : 64); n += 2)
@@ -601,6 +800,28 @@ int main(int argc, char** argv) {
     enumerate(AF, a.thorough ? 4 : 3, false);
     enumerate(AC, a.thorough ? 5 : 3, true);
     enumerate(AJ, a.thorough ? 4 : 2, true);
+    phase("plan_alphabets");
+    enumerate(AP, a.thorough ? 4 : 3, false);
+    enumerate(AP2, a.thorough ? 4 : 3, false);
+    enumerate(AS, a.thorough ? 4 : 3, false);
+    enumerate(AX, a.thorough ? 4 : 3, false);
+    enumerate(AP, 2, true);
+    // every n <= 40 (thorough 130): inputs of length n-1, then 1, then n+3, then n/2 at the same n (descending, ascending), complex and real, first calls of a thread
+    for (int n = 3; n <= (a.thorough ? 130 : 40); ++n)
+        for (char k : {'a', 'b'}) {
+            run_history({{k, n, n - 1}, {k, n, 1}, {k, n, n + 3}, {k, n, n / 2}, {k, n, n}, {k, n, n / 2 + 1}}, false, true);
+            run_history({{k, n, 1}, {k == 'a' ? 'b' : 'a', n, n - 1}, {k, n, n - 1}, {k, n, 2}}, false, n <= 40);
+        }
+    phase("npoint_alphabets");
+    // large single calls (>= 2^16 / 2^17 samples), the large frame arriving after small ones and the short one after the large one
+    run_history({{'a', 64, 20}, {'a', 131072, 70000}, {'a', 131072, 1000}, {'a', 64, 10}}, false, true);
+    run_history({{'b', 64, 20}, {'b', 65536, 65535}, {'b', 65536, 3}, {'b', 64, 10}, {'b', 98304, 49152}, {'b', 98304, 5}}, false, true);
+    if (a.thorough) {
+        run_history({{'a', 196608, 131073}, {'a', 196608, 65536}, {'a', 196608, 196608}, {'a', 196608, 7}}, false, true);
+        run_history({{'W', 131072, 70000}, {'W', 131072, 1000}, {'V', 65536, 65535}, {'V', 65536, 3}, {'M', 65536, 40000}, {'M', 65536, 100}}, false, true);
+        run_history({{'H', 131072, 70000}, {'H', 131072, 100}, {'X', 40000, 30000}, {'X', 60000, 5}, {'L', 70000, 20000}, {'L', 1000, 16385}}, false, true);
+    }
+    phase("large_calls");
     // random long histories over 40 lengths with long-lived plan objects interleaved
     std::vector<int> lens;
     for (int n : {3, 5, 6, 7, 9, 10, 11, 12, 15, 16, 18, 20, 21, 24, 25, 27, 30, 32, 33, 36, 41, 43, 45, 47, 48, 49, 50, 53, 60, 64, 77, 81, 90, 96, 100, 101, 120, 121, 128, 143}) lens.push_back(n);
@@ -629,6 +850,41 @@ int main(int argc, char** argv) {
                 }
                 continue;
             }
+            if (rng.next() % 6 == 0) {   // a burst of n-point calls at ONE n with 2..4 different input lengths (shorter / equal / longer; any order), other calls in between now and then
+                const bool spectral = rng.next() % 3 == 0;
+                const int nn = spectral ? (1 << vh::Rng(rng.next()).range(4, 8)) : n;
+                const int cnt = 2 + int(rng.next() % 3);
+                for (int j = 0; j < cnt; ++j) {
+                    int m;
+                    switch (rng.next() % 4) {
+                    case 0: m = nn; break;
+                    case 1: m = nn + 1 + int(rng.next() % uint64_t(nn)); break;
+                    default: m = 1 + int(rng.next() % uint64_t(nn)); break;
+                    }
+                    if (spectral) {
+                        m = std::max(2, std::min(m, nn));
+                        const char kinds[5] = {'W', 'V', 'M', 'H', 'b'};
+                        h.push_back({kinds[rng.next() % 5], nn, m});
+                    } else {
+                        const char kinds[4] = {'a', 'b', 'B', 'H'};
+                        h.push_back({kinds[rng.next() % 4], nn, m});
+                    }
+                    if (rng.next() % 4 == 0) h.push_back({(rng.next() & 1) ? 'c' : 'r', lens[rng.next() % lens.size()], 0});
+                }
+                continue;
+            }
+            if (rng.next() % 10 == 0) {   // calls that pad internally
+                const int m = 1 + int(rng.next() % uint64_t(n + 8));
+                switch (rng.next() % 6) {
+                case 0: h.push_back({'x', n, m}); break;
+                case 1: h.push_back({'X', n, m}); break;
+                case 2: h.push_back({'L', n, 1 + m % 40}); break;
+                case 3: h.push_back({'d', n, m}); break;
+                case 4: h.push_back({'P', 8 + n, 0}); break;
+                default: h.push_back({'y', n, 100 * (1 + int(rng.next() % 5)) + 1 + int(rng.next() % 5)}); break;
+                }
+                continue;
+            }
             switch (rng.next() % 8) {
             case 0: case 1: case 2: h.push_back({'c', n, 0}); break;
             case 3: case 4: h.push_back({'r', n, 0}); break;
@@ -642,6 +898,34 @@ int main(int argc, char** argv) {
         }
         run_history(h, r % 2 == 0, true);
     }
+    phase("random_histories");
+    // ---- concurrent histories: 8 threads at a time, each with its own inverse-real lengths (nothing the threads do is shared), own padded calls
+    {
+        const int NB = a.thorough ? 12 : 3, NT = 8, CL = a.thorough ? 1500 : 500;
+        for (int bch = 0; bch < NB; ++bch) {
+            std::vector<std::vector<Op>> hs(NT);
+            for (int t = 0; t < NT; ++t) {
+                int mine[4];
+                for (int j = 0; j < 4; ++j) mine[j] = 2 * (8 + 37 * t + 9 * j + int(rng.next() % 4)) + (j == 3 ? 400 : 0);   // even lengths, different in every thread
+                for (int i = 0; i < CL; ++i) {
+                    const int n = mine[rng.next() % 4];
+                    switch (rng.next() % 12) {
+                    case 0: case 1: hs[t].push_back({'i', n, 0}); break;
+                    case 2: hs[t].push_back({'h', n, 0}); break;
+                    case 3: case 4: case 5: hs[t].push_back({'I', n, 2 + int(rng.next() % 30)}); break;
+                    case 6: hs[t].push_back({'k', n, 0}); break;
+                    case 7: hs[t].push_back({(rng.next() & 1) ? 'o' : 'O', n + 1, 0}); break;
+                    case 8: hs[t].push_back({'a', n, 1 + int(rng.next() % uint64_t(n))}); break;
+                    case 9: hs[t].push_back({'b', n, 1 + int(rng.next() % uint64_t(n))}); break;
+                    case 10: hs[t].push_back({'H', n, 1 + int(rng.next() % uint64_t(n))}); break;
+                    default: hs[t].push_back(n <= 128 ? Op{'s', n, 0} : Op{'i', n, 0}); break;
+                    }
+                }
+            }
+            run_concurrent(hs, bch % 2 == 1);
+        }
+    }
+    phase("concurrent_histories");
     }   // !soak_only
     // a slow or hanging soak is reported, not waited for
     vh::set_current("C10:soak-timeout", std::string("{\"what\":\"the soak threads (LRU container / complex plan cache / real plan cache) did not finish in time\",\"operations_each\":") +
